@@ -761,6 +761,9 @@ KNOWN_CLASSES = [
     ("inlineParamSpecRecursion", ("internal_error",), lambda s, d: s[0] == "RecursionError" and "substitute_typevars" in s[1],
      lambda t, ln, col, d, c: any(isinstance(n, ast.Call) and (getattr(n.func, "id", None) == "ParamSpec" or getattr(n.func, "attr", None) == "ParamSpec")
                                   for a in annotation_exprs([t]) for n in ast.walk(a))),
+    ("boundsDedupUnhashable", ("internal_error",), lambda s, d: s == ("TypeError", "typevar.py::resolve_bounds_map") and "unhashable type" in d.get("tail", ""),
+     lambda t, ln, col, d, c: any(isinstance(n, ast.Subscript) and any(isinstance(x, (ast.Dict, ast.List, ast.Set, ast.ListComp, ast.DictComp, ast.SetComp)) for x in ast.walk(n.slice))
+                                  for n in _under(t, ln, col))),
     ("newTypeOfNonClass", ("internal_error",), lambda s, d: s == ("AttributeError", "typeshed.py::_get_info_for_name"), _p_newtype_nonclass),
     ("stringAnnotationPosition", ("bad-col", "bad-line"), lambda s, d: True, _p_string_position),
     ("hugeConstantPower", ("timeout",), lambda s, d: True, _p_huge_power),
